@@ -4,7 +4,11 @@ use crate::streams_chains::{dispatch_int, dispatch_tri};
 use crate::util::*;
 use serde_json::{Value, json};
 use sophia_api::graph::{Graph, MutableGraph};
-use sophia_api::source::{Source, StreamError, TripleSource};
+use sophia_api::dataset::Dataset;
+use sophia_api::quad::{Quad, Spog};
+use sophia_api::source::{QuadSource, Source, StreamError, TripleSource};
+use sophia_inmem::dataset::{FastDataset, LightDataset};
+use std::collections::HashSet;
 use sophia_api::term::Term;
 use sophia_api::triple::Triple;
 use sophia_inmem::graph::GenericFastGraph;
@@ -360,6 +364,143 @@ fn emit(tr: &mut Trace, srckind: &str, sinkkind: &str, src: &[u32], k: usize, ch
         "result": o.result, "payload": o.payload, "count": o.count.map(|c| c as i64).unwrap_or(-1), "pulled": pulled, "alt": o.alt}));
 }
 
+
+// ---------------------------------------------------------------------------------------------- quads
+/// item v as a quad: ids that are multiples of 5 sit in a named graph (a class that map / filter-map preserve: +10, *2)
+pub fn quad(v: u32) -> Spog<ST> {
+    (tri(v), if v % 5 == 0 { Some(iri("http://ex/g")) } else { None })
+}
+fn qid<Q: Quad>(q: &Q) -> u32 {
+    let s = q.s().iri().unwrap().to_string();
+    s.rsplit("/s").next().unwrap().parse().unwrap()
+}
+fn nq_doc(src: &[u32], k: usize) -> String {
+    let mut d = String::new();
+    let line = |v: u32| if v % 5 == 0 { format!("<http://ex/s{v}> <http://ex/p> <http://ex/o> <http://ex/g> .\n") } else { format!("<http://ex/s{v}> <http://ex/p> <http://ex/o> .\n") };
+    for (i, v) in src.iter().enumerate() {
+        if k == i + 1 {
+            d.push_str("<http://ex/sX> garbage here .\n");
+        }
+        d.push_str(&line(*v));
+    }
+    if k == src.len() + 1 {
+        d.push_str("<http://ex/sX> garbage here .\n");
+    }
+    d
+}
+/// what a quad consumer is left with: ids of its statements (sorted), the count it reported, the outcome
+pub struct QOutcome {
+    contents: Vec<u32>,
+    count: Option<u64>,
+    result: &'static str,
+    payload: Value,
+}
+fn q_run<S: QuadSource>(s: S, sink: &str, init: &[u32]) -> QOutcome {
+    use sophia_api::dataset::MutableDataset;
+    let pa = |e: &S::Error| -> Value {
+        let m = e.to_string();
+        if let Some(r) = m.strip_prefix("TestErr(") { json!(r.trim_end_matches(')').parse::<u32>().unwrap_or(0)) } else { json!(-1) }
+    };
+    fn fin<A: std::error::Error, B: std::error::Error>(r: Result<usize, StreamError<A, B>>, pa: impl Fn(&A) -> Value, contents: Vec<u32>) -> QOutcome {
+        let (count, r2) = match r {
+            Ok(n) => (Some(n as u64), Ok(())),
+            Err(e) => (None, Err(e)),
+        };
+        let (result, payload) = classify(r2, pa, |_| json!(-4));
+        QOutcome { contents, count, result, payload }
+    }
+    match sink {
+        "gasd_insert" | "gasd_remove" => {
+            let mut g: HashSet<[ST; 3]> = init.iter().map(|v| tri(*v)).collect();
+            let r = {
+                let mut d = sophia_api::graph::Graph::as_dataset_mut(&mut g);
+                if sink == "gasd_insert" { d.insert_all(s) } else { d.remove_all(s) }
+            };
+            let mut c: Vec<u32> = g.iter().map(id_of).collect();
+            c.sort();
+            fin(r, pa, c)
+        }
+        "fast_insert" | "fast_remove" => {
+            let mut d = FastDataset::new();
+            for v in init {
+                let q = quad(*v);
+                d.insert(&q.0[0], &q.0[1], &q.0[2], q.1.as_ref()).unwrap();
+            }
+            let r = if sink == "fast_insert" { d.insert_all(s) } else { d.remove_all(s) };
+            let mut c: Vec<u32> = d.quads().map(|q| qid(&q.unwrap())).collect();
+            c.sort();
+            fin(r, pa, c)
+        }
+        _ => {
+            let mut d = LightDataset::new();
+            for v in init {
+                let q = quad(*v);
+                d.insert(&q.0[0], &q.0[1], &q.0[2], q.1.as_ref()).unwrap();
+            }
+            let r = if sink == "light_insert" { d.insert_all(s) } else { d.remove_all(s) };
+            let mut c: Vec<u32> = d.quads().map(|q| qid(&q.unwrap())).collect();
+            c.sort();
+            fin(r, pa, c)
+        }
+    }
+}
+/// chains of at most two adapters, spelled out (a recursive generic function would instantiate types without end)
+fn q_dispatch<S: QuadSource>(chain: &[&str], s: S, sink: &str, init: &[u32]) -> QOutcome {
+    macro_rules! second {
+        ($src:expr) => {
+            match chain.get(1).copied() {
+                None => q_run($src, sink, init),
+                Some("filter") => q_run($src.filter_quads(|q| f_filter(&qid(q))), sink, init),
+                Some("map") => q_run($src.map_quads(|q| quad(f_map(qid(&q)))), sink, init),
+                Some("fmap") => q_run($src.filter_map_quads(|q| f_fmap(qid(&q)).map(quad)), sink, init),
+                Some(a) => panic!("quad adapter {a}"),
+            }
+        };
+    }
+    match chain.first().copied() {
+        None => q_run(s, sink, init),
+        Some("filter") => second!(s.filter_quads(|q| f_filter(&qid(q)))),
+        Some("map") => second!(s.map_quads(|q| quad(f_map(qid(&q))))),
+        Some("fmap") => second!(s.filter_map_quads(|q| f_fmap(qid(&q)).map(quad))),
+        Some(a) => panic!("quad adapter {a}"),
+    }
+}
+/// quad pipelines: insert_all / remove_all of datasets (GraphAsDataset refusing named graphs, FastDataset, LightDataset)
+fn quad_family(rng: &mut Rng, tr: &mut Trace, n: usize) {
+    let adapters = ["filter", "map", "fmap"];
+    let sinks = ["gasd_insert", "gasd_remove", "fast_insert", "fast_remove", "light_insert", "light_remove"];
+    for i in 0..n {
+        let len = rng.below(8);
+        let src: Vec<u32> = (0..len).map(|_| *rng.pick(&[1u32, 2, 3, 4, 5, 6, 10, 12, 15, 20])).collect();
+        let k = if rng.chance(1, 2) { 0 } else { 1 + rng.below(len + 1) };
+        let chain: Vec<&str> = (0..rng.below(3)).map(|_| *rng.pick(&adapters)).collect();
+        let sink = sinks[i % sinks.len()];
+        // the consumer's initial statements: often empty, often exactly what the stream removes before the fault
+        let pool: Vec<u32> = [1u32, 2, 3, 4, 6, 12, 5, 10, 15, 20, 11, 14, 16, 22, 24].iter().copied().filter(|v| !sink.starts_with("gasd") || v % 5 != 0).collect();
+        let init: Vec<u32> = match rng.below(4) {
+            0 => vec![],
+            1 => src.iter().take(k.saturating_sub(1).max(1)).copied().filter(|v| pool.contains(v)).collect::<std::collections::BTreeSet<_>>().into_iter().collect(),
+            _ => pool.iter().copied().filter(|_| rng.chance(1, 3)).collect(),
+        };
+        let parser = rng.chance(1, 3);
+        let r = guarded(|| {
+            if parser {
+                let doc = nq_doc(&src, k);
+                ("nq", q_dispatch(&chain, sophia_turtle::parser::nq::parse_str(&doc), sink, &init), -1i64)
+            } else {
+                let (it, c) = CountingIter::new(&src, k);
+                let o = q_dispatch(&chain, it.map(|r| r.map(quad)), sink, &init);
+                ("iter", o, c.get() as i64)
+            }
+        });
+        match r {
+            Ok((srckind, o, pulled)) => tr.emit(json!({"ev":"QPipe","srckind":srckind,"sink":sink,"src":src,"k":k,"chain":chain,"init":init,
+                "contents":o.contents,"count":o.count.map(|c| c as i64).unwrap_or(-1),"result":o.result,"payload":o.payload,"pulled":pulled})),
+            Err(msg) => tr.emit(json!({"ev":"Panic","msg":msg,"src":src,"k":k,"chain":chain,"sink":sink})),
+        }
+    }
+}
+
 pub fn main(args: &[String]) {
     quiet_panics();
     let seed = arg_u64(args, "--seed", 1);
@@ -453,5 +594,6 @@ pub fn main(args: &[String]) {
             Err(msg) => tr.emit(json!({"ev":"Panic","msg":msg,"src":src,"k":k,"chain":chain,"j":jj})),
         }
     }
+    quad_family(&mut rng, &mut tr, nrand / 2);
     println!("events {}", tr.finish());
 }
